@@ -335,14 +335,16 @@ def specOpenAt (k : Nat) (before : List Line) : Option CType :=
     else none
   | none => none
 
-/-- `@else` needs an open `@case` clause at its indent, `@end` an open `@case`/`@else`. -/
+/-- `@else` needs an open `@case` clause at its indent, `@end` an open `@case`/`@else`;
+    a `@case` must not continue an `@else` (nothing but `@end` can follow `@else`). -/
 def misplacedAt (before : List Line) (l : Line) : Bool :=
   match l.kw with
   | .els => specOpenAt l.indent before != some .case
   | .fin => specOpenAt l.indent before == none
+  | .case _ => specOpenAt l.indent before == some .els
   | _ => false
 
-/-- Some `@else`/`@end` of the sequence is misplaced. -/
+/-- Some clause line of the sequence is misplaced. -/
 def misplacedFrom (before : List Line) : List Line → Bool
   | [] => false
   | l :: ls => misplacedAt before l || misplacedFrom (before ++ [l]) ls
